@@ -984,6 +984,7 @@ def response_plain(data, v):
 class Client(object):
     """Convenience driver: issue item specs as an identity under a version; returns plain results.
     Every response passes through the envelope invariant; problems are appended to .envelope."""
+    undecodable_responses = 0       # responses the library could not decode (process-wide count)
 
     def __init__(self, server, user="alice", groups=None, v=(1, 2)):
         self.server = server
@@ -1008,7 +1009,13 @@ class Client(object):
             probs = ttlvref.check_response_envelope(r["resp"], tuple(spec["v"]))
             if probs:
                 self.envelope.append((spec, probs))
-            r["items"] = response_plain(r["resp"], tuple(spec["v"]))
+            try:
+                r["items"] = response_plain(r["resp"], tuple(spec["v"]))
+            except Exception as e:
+                # the server sent something its own library cannot decode: not a harness problem
+                r["items"] = None
+                r["error"] = e
+                r["stage"] = "response-undecodable"
         else:
             r["items"] = None
         return r
@@ -1016,6 +1023,8 @@ class Client(object):
     def one(self, item, **hdr):
         r = self.request([item], **hdr)
         if r["items"] is None:
+            if r.get("stage") == "response-undecodable":
+                Client.undecodable_responses += 1
             return {"status": "REQUEST_ERROR", "reason": type(r["error"]).__name__,
                     "message": str(r["error"]), "payload": None, "op": item["op"], "bid": None}
         return r["items"][0]
